@@ -80,16 +80,18 @@ def punctOK : Bool :=
 def consistent : Bool :=
   Op.all.all shapeOK && Gen.HROps.printer.map (·.1) == Op.all &&
   Gen.HROps.tokens.all (fun e => RT.kindOKb e.2) && punctOK &&
-  Gen.HROps.hashes == alignedHashes && Gen.HROps.functional == alignedFunctional
+  Gen.HROps.hashes == alignedHashes && Gen.HROps.functional == alignedFunctional &&
+  Gen.HROps.simpleSymbolRegex == alignedSimpleRegex
 
 theorem shapes_ok : Op.all.all shapeOK = true := by decide
 theorem printer_total : (Gen.HROps.printer.map (·.1) == Op.all) = true := by decide
 theorem punct_ok : punctOK = true := by decide
 theorem hashes_ok : (Gen.HROps.hashes == alignedHashes) = true := by decide
+theorem regex_ok : (Gen.HROps.simpleSymbolRegex == alignedSimpleRegex) = true := by decide
 theorem functional_ok : (Gen.HROps.functional == alignedFunctional) = true := by decide
 
 theorem consistent_true : consistent = true := by
-  simp only [consistent, shapes_ok, printer_total, RT.tokens_ok, punct_ok, hashes_ok, functional_ok, Bool.and_self]
+  simp only [consistent, shapes_ok, printer_total, RT.tokens_ok, punct_ok, hashes_ok, functional_ok, regex_ok, Bool.and_self]
 
 def lbpS (s : String) : Nat := lbp (.op s)
 def prefixLbp (s : String) : Nat := match unaryOf s with | some (_, l) => l | none => 0
